@@ -1,5 +1,7 @@
 """C17 Including a file is equivalent to assembling its text in place."""
-from harness import asmcheck, runner, tlc
+from harness import asmcheck
+from harness import runner, tlc
+from checks import tracepart
 from harness.carrier import carrier_yaml
 
 MARK = {'main': 0x11, 'A': 0xA1, 'B': 0xB2, 'C': 0xC3}
@@ -92,8 +94,13 @@ def run(chk):
                 'expressible - global names only, no zone selection - Run(split) = Run(pasted) on status, image and global '
                 'label values) and ResolvesOnlyToVisible. Every scenario is rendered to real files (main.asm + incK.asm), '
                 'assembled, and compared on accept/reject, per-line address and image. Non-trivial = contains an include.')
+    chk.rule += (' Code -> specification: seeded random multi-file programs (nested conditionals, definitions, muting, zones, includes, all label '
+                 'classes) and the repository programs are assembled with the reading-phase hooks on; every line event must be '
+                 'AsmCore!ReadStep (Trace_Read.tla): compiled flag, mute flag, current zone, condition stack depth and branch state, and '
+                 'label scope identity; corrupted traces must be rejected.')
     chk.assumptions = ['conditional chains do not span an include boundary (left open)',
                        'include-twice / missing / ambiguous-name rejections: spec/Include.tla enumerates every include graph over 2 library files x every placement of copies in the main directory and the -I directories x duplicate -I spellings; TLC checks OrderIndependent (lookup loop = order-free statement for every iteration order of the directory set) and each configuration is replayed with real directories']
     chk.exhaustive = True
     asmcheck.run_instances(chk, instances(chk.tier), WHAT, KINDS)
     include_part(chk)
+    tracepart.run_read_traces(chk)
